@@ -189,4 +189,64 @@ theorem IConn_iff_Conn (b : Bin) {i j : Nat} (hi : IsV b.rows b.cols b.data i) :
     have := key _ _ h ((isV_iff b i).mp hi).2
     rwa [idxOf_pxOf, idxOf_pxOf] at this
 
+
+/-! ## images with the same components have the same count -/
+
+theorem length_le_of_inj {α β : Type} [DecidableEq β] (R : α → β → Prop) :
+    ∀ (la : List α) (lb : List β), la.Nodup → (∀ a ∈ la, ∃ b ∈ lb, R a b) →
+      (∀ a ∈ la, ∀ a' ∈ la, ∀ b ∈ lb, R a b → R a' b → a = a') → la.length ≤ lb.length := by
+  intro la
+  induction la with
+  | nil => intro lb _ _ _; simp
+  | cons a la ih =>
+    intro lb hnd h1 h3
+    rw [List.nodup_cons] at hnd
+    obtain ⟨b, hb, hab⟩ := h1 a List.mem_cons_self
+    have := ih (lb.erase b) hnd.2 (by
+      intro a' ha'
+      obtain ⟨b', hb', hab'⟩ := h1 a' (List.mem_cons_of_mem _ ha')
+      refine ⟨b', ?_, hab'⟩
+      have hne : b' ≠ b := by
+        intro e
+        subst e
+        have := h3 a List.mem_cons_self a' (List.mem_cons_of_mem _ ha') b' hb hab hab'
+        exact hnd.1 (this ▸ ha')
+      exact (List.mem_erase_of_ne hne).mpr hb') (by
+      intro x hx x' hx' y hy
+      exact h3 x (List.mem_cons_of_mem _ hx) x' (List.mem_cons_of_mem _ hx') y (List.mem_of_mem_erase hy))
+    rw [List.length_erase_of_mem hb] at this
+    have : 0 < lb.length := List.length_pos_of_mem hb
+    simp only [List.length_cons]
+    omega
+
+/-- a system of distinct representatives of the classes of `Conn A`, as flat indices read through `px` -/
+def IsSDR (A : Set Px) (px : Nat → Px) (l : List Nat) : Prop :=
+  l.Nodup ∧ (∀ s ∈ l, px s ∈ A) ∧ ∀ p ∈ A, ∃! s, s ∈ l ∧ Conn A (px s) p
+
+theorem sdr_length_eq {A B : Set Px} (h : SameComps A B) {pa pb : Nat → Px} {la lb : List Nat}
+    (ha : IsSDR A pa la) (hb : IsSDR B pb lb) : la.length = lb.length := by
+  obtain ⟨hBA, hiff, hnear⟩ := h
+  obtain ⟨nda, ma, ua⟩ := ha
+  obtain ⟨ndb, mb, ub⟩ := hb
+  have hR1 : ∀ a ∈ la, ∃ b ∈ lb, Conn A (pa a) (pb b) := by
+    intro a haa
+    obtain ⟨y, hy, hc⟩ := hnear _ (ma a haa)
+    obtain ⟨b, ⟨hb1, hb2⟩, _⟩ := ub y hy
+    exact ⟨b, hb1, hc.trans (Conn.mono hBA hb2).symm⟩
+  have hR2 : ∀ b ∈ lb, ∃ a ∈ la, Conn A (pa a) (pb b) := by
+    intro b hbb
+    obtain ⟨a, ⟨ha1, ha2⟩, _⟩ := ua _ (hBA (mb b hbb))
+    exact ⟨a, ha1, ha2⟩
+  have hR3 : ∀ a ∈ la, ∀ a' ∈ la, ∀ b ∈ lb, Conn A (pa a) (pb b) → Conn A (pa a') (pb b) → a = a' := by
+    intro a h1 a' h2 b h3 c1 c2
+    exact (ua _ (hBA (mb b h3))).unique ⟨h1, c1⟩ ⟨h2, c2⟩
+  have hR4 : ∀ b ∈ lb, ∀ b' ∈ lb, ∀ a ∈ la, Conn A (pa a) (pb b) → Conn A (pa a) (pb b') → b = b' := by
+    intro b h1 b' h2 a h3 c1 c2
+    have cA : Conn A (pb b) (pb b') := c1.symm.trans c2
+    have cB : Conn B (pb b) (pb b') := (hiff _ (mb b h1) _ (mb b' h2)).mp cA
+    exact (ub _ (mb b' h2)).unique ⟨h1, cB⟩ ⟨h2, Conn.refl _⟩
+  apply Nat.le_antisymm
+  · exact length_le_of_inj (fun a b => Conn A (pa a) (pb b)) la lb nda hR1 hR3
+  · exact length_le_of_inj (fun b a => Conn A (pa a) (pb b)) lb la ndb hR2 hR4
+
 end Mahotas.C15
